@@ -59,7 +59,7 @@ def run(tier, repo):
              "record parsers disagree on the header layout (u8, u16 BE, u16 BE, streaming)", found=hdrs, why_ok="u8,u16be,u16be streaming in all three")
     r = res.get("tls_record::parse_tls_plaintext")
     if r and "code" in r:
-        subs = [st for st in r["code"]["steps"] if st[0] == "sub"]
+        subs = [st for st in r.get("full_code", r["code"])["steps"] if st[0] == "sub"]
         f = F.fn("tls_record::parse_tls_plaintext")
         if rp.check(len(subs) == 1, "NO-INCOMPLETE-INSIDE", "region", site(f), "payload region (map_parser(take(len), ..)) not found"):
             sites = incomplete_sites(subs[0][3])
